@@ -163,7 +163,20 @@ def semi_module(rng):
         else:
             out.append('%stype %s { a: u32 }' % ('pub ' if pub else '', name))
             defs.append(type_def(pub, name, at, [field(False, 'a', ty_id('u32'), [])]))
-    return '\n'.join(out) + '\n', module(defs=defs)
+    # the braced form of a backend block accepts its two parts in either order (the Lean printer writes the prologue first)
+    bes = []
+    for k in range(rng.choice([0, 1, 1, 2])):
+        pro, epi = 'use x::y%d;' % k, 'fn z%d() {}' % k
+        r = rng.random()
+        if r < 0.5:
+            out.append('backend rust { epilogue "%s"; prologue "%s"; }' % (epi, pro)); bes.append(backend('rust', pro, epi))
+        elif r < 0.7:
+            out.append('backend rust { prologue "%s"; epilogue "%s"; }' % (pro, epi)); bes.append(backend('rust', pro, epi))
+        elif r < 0.85:
+            out.append('backend cpp { epilogue "%s"; }' % epi); bes.append(backend('cpp', None, epi))
+        else:
+            out.append('backend rust epilogue "%s";' % epi); bes.append(backend('rust', None, epi))
+    return '\n'.join(out) + '\n', module(defs=defs, backends=bes)
 
 def judge_all(cases, impl, model, tier):
     import random
